@@ -22,12 +22,19 @@ RULE = ('compositions of 1-5 volatile chemicals (family-restricted for the vapou
         'first flash (TV, TP, TH, TS, PV, PH) - the contents change (one chemical swapped, dropped, added, a disjoint set, new proportions, k times the contents, nothing, or another stream of the package is flashed instead; '
         'through imol assignment, touching only what changes, copy_flow, copy_like, mix_from, empty + set, a proxy; the stream starts as MultiStream or Stream; N2 present, appearing or vanishing) - second flash at the very '
         'temperature of the first (80 %) inside the two-phase window of the new contents (85 %) with TP, TV, PV, PH, TH or x / y - optionally back to the first set and a third T-P flash; judged by the same clauses on the new contents. '
+        'oracle audit (round 6): phase boundaries, x / y specifications and the state a P/H flash returns are judged against a harness-side model (closed-form bubble pressure, own dew fixed point, fugacities from the '
+        "package's gamma / phi / pcf / Psat as data) besides the library's own solvers; P/H and P/S results are re-flashed at the returned T; one chemical on its saturation line is judged through Psat(T returned); "
+        'keys of the recorded findings carry the input class (kind of mixture, +inert); a raise counts as a refusal only for the documented exception type of that specification and, where the harness can, only after '
+        'it verified the reason from the inputs (x / y: lever rule outside [0, 1] with its own model), everything else is reported; unverifiable refusals above 40 % of the calls of a specification (and at least 8 in a shard) make the run inconclusive. '
         'non-trivial = two-phase result; distinct = hash of the case')
 MIN_NONTRIVIAL = {'quick': 150, 'thorough': 4000}
 ASSUMPTIONS = ['scaling under P/S is not judged: the liquid entropy functions of the property package (HEOS_FIT heat-capacity integrals of the thermo dependency) jump by whole J/mol/K between adjacent temperatures, so equal entropies do not identify equal states',
                'fugacities are recomputed from thermo.Gamma / Phi / PCF and Chemical.Psat (the same model objects the flash uses)',
-               'scaling bound 1e-5 of the feed (two fixed points converged to K_tol=1e-6; observed 3.3e-7 once in 24 000 compositions, otherwise 1e-15)', 'independent re-flash bound 5e-3 in vapour fraction (two fixed points converged to K_tol=1e-6 from different guesses); entropy bound 5e-3 of (S_vap - S_liq): the final entropy correction moves a fraction of one phase linearly while the mixing entropy is not linear (observed up to 1.3e-3 on cross-family mixtures); T-specified H/S and TV bounds follow from P_tol = 1 Pa times the slope across the two-phase window',
-               'histories: the pressure returned by T/V with the ideal package is compared with the pressure at which the Raoult Rachford-Rice vapour fraction equals the specification, bound 2 Pa (P_tol = 1 Pa) + 1e-5 of the window width (V_tol = 1e-6); a raise of the second flash is counted, not judged (the property speaks about calculations that return)']
+               'scaling bound 1e-5 of the feed (two fixed points converged to K_tol=1e-6; observed 3.3e-7 once in 24 000 compositions, otherwise 1e-15)', 'independent re-flash bound 1e-4 in vapour fraction (was 5e-3; two fixed points converged to K_tol=1e-6 from different guesses, worst observed 7e-6), iso-fugacity bound 1e-5 relative (was 1e-4; worst observed 1e-7), 3e-5 for the split a P/H flash leaves after its final correction (worst observed 1e-6); entropy bound 5e-3 of (S_vap - S_liq): the final entropy correction moves a fraction of one phase linearly while the mixing entropy is not linear (observed up to 1.3e-3 on cross-family mixtures); T-specified H/S and TV bounds follow from P_tol = 1 Pa times the slope across the two-phase window',
+               'histories: the pressure returned by T/V with the ideal package is compared with the pressure at which the Raoult Rachford-Rice vapour fraction equals the specification, bound 2 Pa (P_tol = 1 Pa) + 1e-5 of the window width (V_tol = 1e-6); a raise of the second flash is counted, not judged (the property speaks about calculations that return) - only the documented refusals, see RULE',
+               'harness-side equilibrium model: P_bubble = sum_i z_i gamma_i(z, T) Psat_i pcf_i / phi_i, P_dew by the fixed point x <- z P phi / (gamma(x) Psat pcf); the model objects of the package are evaluated as data, no solver of the library takes part; bubble / dew pressures of the library agree with it to 1e-6 relative + 1e-2 Pa (observed 3e-12)',
+               'P/S flashes: the equilibrium entropy as a function of T is not continuous with this package (jumps of up to 1e-2 of S_vap - S_liq, more than the entropy of the vapour present at small vapour fractions), so set_PS cannot locate T finer than that and may fall back on a one-phase state (Hexane/Benzene at 275 kPa, window 0.3 K wide: all liquid 0.5 K above the dew temperature): no re-flash and no fugacity condition is demanded of a P/S result (tried: an independent T-P flash at the returned T differs by up to 1.0 in vapour fraction on the unchanged library), only that the returned T lies inside the window of the P/V flashes at vapour fractions 0.02 / 0.98 widened by max(10 %, 5 K); a P/S specification that lands beyond the all-liquid / all-vapour entropy (one-phase result) is outside the box of the property and not judged; a one-phase P/S result that an independent T-P flash at the returned T confirms and that misses the entropy by less than 2e-2 of S_vap - S_liq (a jump of the entropy functions: the one-phase state is found by solving S(T) = target on them) is not judged either, as for a single chemical - both were formerly filed under the recorded first-order-correction finding although no material had been moved; that finding is now granted only up to R * ln 2 * (the amount moved = difference to the equilibrium split at the returned T)',
+               'P/H flashes: an independent T-P flash at the returned T reproduces H to 1e-5 K*C + 10 * T_tol * |dH/dT| across the window (T_tol = 5e-8 K, kept as a constant of the harness); the T-specified H / S searches are judged as before (P_tol = 1 Pa)']
 FAM = {'alcohol': ('Methanol', 'Ethanol', 'Propanol', 'Butanol'), 'hydrocarbon': ('Hexane', 'Heptane', 'Octane', 'Benzene', 'Toluene')}
 ANY = ('Water', 'Acetone') + FAM['alcohol'] + FAM['hydrocarbon']
 _th = {}
@@ -42,7 +49,10 @@ def required(tier):
             # seeded round 5: histories on one stream
             'history', 'history:family', 'history:ideal', 'history:same-T/changed-set/two-phase', 'history:inside-window', 'history:swap', 'history:drop', 'history:add', 'history:disjoint', 'history:new-proportions',
             'history:rescaled', 'history:unchanged', 'history:other-stream', 'history:third', 'history:obj=Stream', 'history:method=proxy', 'history:method=mix_from', 'history:method=imol-touch',
-            'history:second=TP', 'history:second=TV', 'history:second=PV', 'history:second=PH', 'history:second=TH', 'history:second=xy']
+            'history:second=TP', 'history:second=TV', 'history:second=PV', 'history:second=PH', 'history:second=TH', 'history:second=xy',
+            # oracle audit (round 6): harness-side references and the observation points that must not fall silent
+            'own-model:window', 'boundary:solver-vs-model', 'spec-xy:equilibrium', 'spec-xy:both-phases', 'spec-xy:refusal-verified', 'reflash:PH', 'window:PS', 'reflash:PH/chained',
+            'returned:PT', 'returned:PV', 'returned:TV', 'returned:HP', 'returned:PS', 'returned:HT', 'returned:ST', 'T-spec-HS:family', 'T-spec-HS:ideal', 'P-spec-HS:family', 'P-spec-HS:ideal', 'scaling-TP:family', 'scaling-TP:cross-family']
 
 
 def chem(i):
@@ -132,6 +142,169 @@ def raoult_rr(z, K):
 
 
 REFUSE = ('InfeasibleRegion', 'NoEquilibrium', 'DomainError', 'NotImplementedError')
+ISO_TOL = 1e-5        # liquid / vapour fugacities of a returned two-phase split, relative (ten times the flash's K_tol = 1e-6; worst observed 1.1e-7 .. 5e-7)
+SAT_TOL = 5e-6        # |Psat(T returned) - P| / P for one chemical on its saturation line (as C08)
+XY_P_TOL = 1e-6       # x / y specifications: saturation pressure of the named phase at the returned state, relative (+ 1e-2 Pa)
+XY_ISO_TOL = 1e-6     # x / y specifications: fugacities of the two returned phases, relative
+T_TOL = 5e-8          # the flash's stated temperature resolution (VLE.T_tol), as a constant of the harness
+PS_T_MARGIN = 15.0    # K: a P/S flash whose entropy lies between the values at vapour fractions 0.0056 and 0.9944 returns a T inside the window of the P/V flashes at 0.02 / 0.98, widened by 10 % or this (coarse: see ASSUMPTIONS)
+FIRST_ORDER_FACTOR = math.log(2.)
+ENTROPY_JUMP = 2e-2   # of (S_vap - S_liq): size of the jumps of the package's entropy functions between adjacent temperatures (observed 5e-3 .. 1.1e-2), see ASSUMPTIONS
+BOUNDARY_TOL = 1e-6   # bubble / dew pressure the flash computes against the harness-side model, relative (+ 1e-2 Pa)
+PH_T_TOL = 5e-5       # K: temperature returned by a P/H flash against the fresh P/V flash whose enthalpy was specified (T_tol = 5e-8 K each; worst observed 2e-6 in 580 flashes; was 1e-3)
+PH_ISO_TOL = 3e-5     # fugacities of the two phases a P/H flash returns (after its final correction of the split), relative; worst observed 1e-6 in 1100 flashes
+PH_V_TOL = 1e-5       # vapour fraction of a P/H result against an independent T-P flash at the returned T (worst observed 2.5e-7 in 700 flashes)
+REFLASH_TOL = 1e-4    # vapour fraction of an independent T-P flash at the returned state (two fixed points converged to K_tol = 1e-6 from different guesses; worst observed 7e-6)
+
+# ---------------------------------------------------------------------------
+# oracle audit (round 6): harness-side equilibrium models.  The package's model objects (activity, fugacity and Poynting coefficients, Chemical.Psat) are used as DATA,
+# evaluated at given points; no solver of the library (bubble / dew point, flash) takes part, so a regression in one of those cannot move the reference with it.
+
+_models = {}
+_obs = None      # calibration hook: a dict name -> list of residuals when set by a calibration script (never set by the harness)
+
+
+def obs(name, val):
+    if _obs is not None: _obs.setdefault(name, []).append(float(val))
+
+
+def models(th, cs):
+    k = (id(th), tuple(c.ID for c in cs))
+    if k not in _models: _models[k] = (th, th.Gamma(cs), th.Phi(cs), th.PCF(cs))
+    return _models[k][1:]
+
+
+def psats(cs, T): return np.array([c.Psat(T) for c in cs], float)
+
+
+def own_fugacities(th, cs, x, y, T, P):
+    gam, phi, pcf = models(th, cs); Psat = psats(cs, T)
+    return x * gam(x.copy(), T) * Psat * pcf(T, P, Psat), y * phi(y.copy(), T, P) * P
+
+
+def own_bubble(th, cs, x, T):
+    """(P, y) at which liquid x starts to boil at T: P = sum_i x_i gamma_i(x, T) Psat_i pcf_i / phi_i - closed form when phi and pcf do not depend on (P, y), else a few substitutions"""
+    gam, phi, pcf = models(th, cs); Psat = psats(cs, T)
+    a = x * gam(x.copy(), T) * Psat
+    P = float(a.sum()); y = a / P
+    for _ in range(100):
+        b = a * pcf(T, P, Psat) / phi(y.copy(), T, P); Pn = float(b.sum()); yn = b / Pn
+        done = abs(Pn - P) <= 1e-13 * Pn and float(np.abs(yn - y).max()) <= 1e-13
+        P, y = Pn, yn
+        if done: return P, y
+    return None
+
+
+def own_dew(th, cs, y, T):
+    """(P, x) at which vapour y starts to condense at T: own fixed point x <- y P phi / (gamma(x) Psat pcf), P = 1 / sum(y phi / (gamma Psat pcf)); None when it does not settle
+    (a contraction for the near-ideal mixtures of the family clauses: 10-40 substitutions)"""
+    gam, phi, pcf = models(th, cs); Psat = psats(cs, T)
+    x = y / Psat; x = x / x.sum(); P = float(1. / (y / Psat).sum())
+    for _ in range(1500):
+        k = gam(x.copy(), T) * Psat * pcf(T, P, Psat) / phi(y.copy(), T, P)
+        Pn = float(1. / (y / k).sum()); xn = y * Pn / k; xn = xn / xn.sum()
+        step = max(abs(Pn - P) / Pn, float(np.abs(xn - x).max()))
+        P, x = Pn, xn
+        if step <= 1e-13: return P, x
+    return None
+
+
+def judge_window(rec, V, P, Pb, Pd, sfx, ref, what):
+    """the phase-boundary clause at specified (T, P) against a bubble pressure Pb and a dew pressure Pd (`ref` says where they come from); returns True when P is inside the window"""
+    if P >= Pb * (1 + 1e-6): rec.check(V == 0.0, 'phase-boundary', 'above-bubble' + sfx, f'{what}: P={P} >= P_bubble={Pb!r} ({ref}) but vapour fraction is {V!r}')
+    elif P <= Pd * (1 - 1e-6): rec.check(V == 1.0, 'phase-boundary', 'below-dew' + sfx, f'{what}: P={P} <= P_dew={Pd!r} ({ref}) but vapour fraction is {V!r}')
+    elif Pd * (1 + 1e-4) < P < Pb * (1 - 1e-4):
+        rec.check(0.0 < V < 1.0, 'phase-boundary', 'inside' + sfx, f'{what}: P_dew={Pd!r} < P={P} < P_bubble={Pb!r} ({ref}) but vapour fraction is {V!r}')
+        return True
+    return False
+
+
+def own_window(rec, th, cs, z, T):
+    """(P_bubble, P_dew) of the harness-side model, or None (counted) when the own dew fixed point does not settle"""
+    b = own_bubble(th, cs, z, T); d = own_dew(th, cs, z, T)
+    if b is None or d is None:
+        rec.refuse('harness-side bubble / dew model did not settle (own fixed point): phase boundary judged against the library solvers only'); return None
+    rec.hit('own-model:window')
+    return b[0], d[0]
+
+
+def lib_window(rec, th, cs, z, T, where=''):
+    """(P_bubble, P_dew) of the library's public solvers (cross-check of the own model; what the flash itself uses).  A documented refusal of the solvers is counted,
+    anything else they raise is reported: the phase-boundary clause must not silently disappear"""
+    try:
+        return float(eq.BubblePoint(cs, th).solve_Py(z.copy(), T)[0]), float(eq.DewPoint(cs, th).solve_Px(z.copy(), T)[0])
+    except Exception as e:
+        if type(e).__name__ == 'InfeasibleRegion': rec.refuse(f'{where}bubble/dew point unavailable: {type(e).__name__}')
+        else: rec.exception('phase-boundary', e, what=f'{where}BubblePoint.solve_Py / DewPoint.solve_Px on {[c.ID for c in cs]} (z={z.tolist()}, T={T}) raised {type(e).__name__}: {str(e)[:140]}')
+        return None
+
+
+def secant_T(fn, P0, T1=340., T2=360.):
+    """T at which fn(T) = P0 by the secant method in (1 / T, ln P), where vapour-pressure-like functions are almost straight; None when it does not settle or a model leaves its domain"""
+    try:
+        a1, a2 = 1. / T1, 1. / T2; f1 = math.log(fn(T1) / P0); f2 = math.log(fn(T2) / P0)
+        for _ in range(40):
+            if abs(f2) <= 1e-12: return 1. / a2
+            if f2 == f1: return None
+            a3 = a2 - f2 * (a2 - a1) / (f2 - f1)
+            if not (1. / 1000. < a3 < 1. / 150.): return None
+            a1, f1 = a2, f2; a2 = a3; f2 = math.log(fn(1. / a2) / P0)
+    except Exception: return None
+    return None
+
+
+def xy_model(th, cs, nm, v, val):
+    """harness-side model of an x / y specification on a binary: (T, P, x, y) with the named phase of composition [v, 1 - v] on its saturation line at the given T (P); None when the model does not settle"""
+    w = np.array([v, 1. - v]); f = own_bubble if nm[1] == 'x' else own_dew
+    if nm[0] == 'T': T = val
+    else: T = secant_T(lambda T_: (f(th, cs, w, T_) or (float('nan'),))[0], val)
+    r = f(th, cs, w, T) if T else None
+    if r is None: return None
+    return (T, r[0], w, r[1]) if nm[1] == 'x' else (T, r[0], r[1], w)
+
+
+def dew_residual_own(th, cs, z, T, P, x):
+    """how far the dew point (T, P, x) a solver of the library returned for vapour z is from satisfying the dew equations, with the package's model objects as data:
+    x_i = z_i P phi_i / (gamma_i(x) Psat_i pcf_i) must sum to 1 and reproduce x.  (Self-contained: formerly borrowed from the C08 workload, whose helper changed its signature,
+    which silently switched the classification off.)"""
+    gam, phi, pcf = models(th, cs); Psat = psats(cs, T)
+    z = np.asarray(z, float); z = z / z.sum(); x = np.asarray(x, float); xn = x / x.sum()
+    xp = z * P * phi(z.copy(), T, P) / (gam(xn.copy(), T) * Psat * pcf(T, P, Psat))
+    r = max(abs(float(xp.sum()) - 1.0), float(np.abs(xp / xp.sum() - xn).max()))
+    return r if r == r else float('inf')
+
+
+DEW_RES_TOL = 1e-6      # (as C08: a returned dew point with a residual above this is not a dew point; converged ones are at 1e-9 .. 1e-12)
+
+
+def dew_T_mechanism(th, cs, z, P):
+    """'' | '/dew-below-bubble' | '/dew-solver-unconverged': the recorded C08 dew-solver finding reaching a P-specified flash, which takes its temperature bracket from the library's
+    bubble / dew solvers (evaluated only to name the mechanism of an oracle that already failed): the dew temperature the library computes lies below its bubble temperature, or
+    the returned dew point does not satisfy the dew equations"""
+    try:
+        z = np.asarray(z, float)
+        Tb = eq.BubblePoint(cs, th).solve_Ty(z.copy(), P)[0]; Td, xd = eq.DewPoint(cs, th).solve_Tx(z.copy(), P)
+        if Td < Tb - 1e-6: return '/dew-below-bubble'
+        if dew_residual_own(th, cs, z, Td, P, xd) > DEW_RES_TOL: return '/dew-solver-unconverged'
+    except Exception as e:
+        if isinstance(e, (TypeError, AttributeError, NameError, KeyError, IndexError)): raise      # a broken classification must not pass silently (it did once)
+    return ''
+
+
+def dew_P_mechanism(th, cs, z, T):
+    """the same for a T-specified flash: '' | '/dew-solver-unconverged' when the dew pressure the library computes does not satisfy the dew equations or exceeds its bubble pressure"""
+    try:
+        z = np.asarray(z, float)
+        Pd, xd = eq.DewPoint(cs, th).solve_Px(z.copy(), T)
+        if dew_residual_own(th, cs, z, T, Pd, xd) > DEW_RES_TOL or Pd > eq.BubblePoint(cs, th).solve_Py(z.copy(), T)[0] * (1 + 1e-9): return '/dew-solver-unconverged'
+    except Exception as e:
+        if isinstance(e, (TypeError, AttributeError, NameError, KeyError, IndexError)): raise
+    return ''
+
+
+def klass(kind, *inerts):
+    """input class carried by the keys of the recorded findings: the kind of mixture and whether an inert (non-condensable gas / non-volatile solute) is present"""
+    return kind + ('+inert' if any(inerts) else '')
 
 
 def run_case(case, rec):
@@ -146,17 +319,37 @@ def run_case(case, rec):
     if case['inert']: rec.hit('with-inerts')
     if case.get('inert2'): rec.hit('with-inerts:gas-and-solute')
     two_phase = False
+    cls = klass(kind, case['inert'], case.get('inert2'))
+    inerts = [i for i in (case['inert'], case.get('inert2')) if i]
+    # number of species the library counts as taking part (x / y specifications need exactly 2): the volatile ones, + 1 for a non-condensable gas, + 1 for a non-volatile solute that counts as solute
+    N_eq = len(case['ids']) + ('N2' in inerts) + sum(1 for i in inerts if i != 'N2' and getattr(chems[i], 'N_solutes', 0))
+    last = {}
 
-    def flash(s, **spec):
+    def flash(s, _allow=(), **spec):
+        """one vle call.  C04 speaks about calculations that return, so a DOCUMENTED refusal is counted and not judged - but (oracle audit) only the documented exception type for
+        that specification, and only when the harness can see from the inputs that it is warranted:
+          InfeasibleRegion from the lever rule of an x / y specification (the call site then verifies with its own model that the composition is infeasible indeed);
+          AssertionError of an x / y specification when the number of species in equilibrium is not 2;
+          what the call site names in _allow = ((type name, message part[, warrant()]), ...) because it can see the reason (H / S outside the saturated values);
+          NotImplementedError ('cannot solve for pressure yet') of a T-specified H / S search when inerts are present (the window is then modified by ad-hoc factors: recorded finding;
+          counted under a ceiling).  (The library has no DomainError class, although REFUSE lists the name: it is not granted.)
+        Everything else is reported."""
+        nm = ''.join(sorted(spec)); last.clear()
         try:
-            s.vle(**spec); return True
+            s.vle(**spec); rec.hit('returned:' + nm); return True
         except Exception as e:
-            if type(e).__name__ in REFUSE: rec.refuse(f'{"".join(sorted(spec))}: {type(e).__name__}'); return False
-            # C04 speaks about calculations that return: a raise inside a solver (FloatingPointError in the activity model, 'root could not be solved')
-            # is counted, not judged; programming errors in the call path are still reported
-            if not isinstance(e, (TypeError, AttributeError, KeyError, IndexError, NameError, UnboundLocalError)):
-                rec.refuse(f'{"".join(sorted(spec))}: raised {type(e).__name__}'); return False
-            rec.exception('flash', e, what=f'vle({spec}) on {ids} ({kind}) raised {type(e).__name__}: {str(e)[:140]}'); return False
+            tn = type(e).__name__; msg = str(e); xy_ = 'x' in spec or 'y' in spec; last['e'] = e; last['verified'] = False
+            if tn == 'InfeasibleRegion' and xy_ and 'phase composition' in msg:
+                rec.refuse(f'{nm}: {tn}'); return False      # (the x / y call site verifies the warrant and counts the unverifiable ones)
+            if tn == 'AssertionError' and xy_ and N_eq != 2:
+                rec.refuse(f'{nm}: raised {tn}'); last['verified'] = True; return False
+            for tn_, part, *warrant in _allow:
+                if tn == tn_ and part in msg and all(fn() for fn in warrant):
+                    rec.refuse(f'{nm}: {tn}' if tn in REFUSE else f'{nm}: raised {tn}'); last['verified'] = True; return False
+            if tn == 'NotImplementedError' and nm in ('HT', 'ST') and inerts and 'cannot solve for pressure' in msg:
+                rec.refuse(f'{nm}: {tn}'); rec.hit('refused-unverified:' + nm); return False
+            # (the input class is part of the key: 'C04/flash/<class>/exception/<type>@<function>')
+            rec.exception('flash/' + cls, e, what=f'vle({spec}) on {ids} ({cls}) raised {tn}: {msg[:140]} - not a documented refusal for this specification and these inputs'); return False
 
     with warnings.catch_warnings():
         warnings.simplefilter('ignore')
@@ -168,14 +361,16 @@ def run_case(case, rec):
             V_tp = vfrac(s, vidx)
             if kind in ('family',) and not case['inert']:
                 z = np.array(case['x']); cs = tuple(chems[i] for i in case['ids'])
-                try:
-                    Pb = eq.BubblePoint(cs, th).solve_Py(z.copy(), T0)[0]; Pd = eq.DewPoint(cs, th).solve_Px(z.copy(), T0)[0]
-                    if P0 >= Pb * (1 + 1e-6): rec.check(V_tp == 0.0, 'phase-boundary', 'above-bubble', f'P={P0} >= P_bubble={Pb!r} at T={T0} but vapour fraction is {V_tp!r} ({ids}, z={z.tolist()})')
-                    elif P0 <= Pd * (1 - 1e-6): rec.check(V_tp == 1.0, 'phase-boundary', 'below-dew', f'P={P0} <= P_dew={Pd!r} at T={T0} but vapour fraction is {V_tp!r} ({ids}, z={z.tolist()})')
-                    elif Pd * (1 + 1e-4) < P0 < Pb * (1 - 1e-4):
-                        rec.check(0.0 < V_tp < 1.0, 'phase-boundary', 'inside', f'P_dew={Pd!r} < P={P0} < P_bubble={Pb!r} at T={T0} but vapour fraction is {V_tp!r} ({ids}, z={z.tolist()})')
-                except Exception as e:
-                    rec.refuse(f'bubble/dew point unavailable: {type(e).__name__}')
+                what_ = f'vle(T={T0}, P={P0}) on {ids}, z={z.tolist()}'
+                # (oracle audit) the reference is the harness-side model: the library's bubble / dew solvers are what the flash itself consults to return V = 0 / V = 1
+                wo = own_window(rec, th, cs, z, T0)
+                if wo is not None: judge_window(rec, V_tp, P0, wo[0], wo[1], '', 'harness-side model', what_)
+                wl = lib_window(rec, th, cs, z, T0)
+                if wl is not None:
+                    judge_window(rec, V_tp, P0, wl[0], wl[1], '', 'library solvers', what_)
+                    if wo is not None:
+                        # the solvers' resolution: P_tol = 1e-3 Pa (bubble), 1e-6 relative for the inner dew iteration
+                        obs('win:Pb', abs(wl[0] - wo[0]) / wo[0]); obs('win:Pd', abs(wl[1] - wo[1]) / wo[1])
             if 0.0 < V_tp < 1.0:
                 two_phase = True
                 if kind == 'family':
@@ -187,8 +382,10 @@ def run_case(case, rec):
                     fl = x * gam * Psat * pcf; fg = y * phi * P0
                     dev = float(np.abs(fl - fg).max() / fg.max()) if case['inert'] is None else float((np.abs(fl - fg) / fg).max())
                     dev = float((np.abs(fl - fg) / fg).max())
-                    isfx = '/unconverged-fixed-point' if dev > 1e-4 and fixed_point_status(th, cs, x, y, V_tp, T0, P0) == 'unconverged' else ''
-                    rec.check(dev <= 1e-4, 'iso-fugacity', 'TP' + isfx, f'liquid and vapour fugacities differ by {dev:.3g} (relative) after vle(T={T0}, P={P0}) on {ids}: f_l={fl.tolist()}, f_g={fg.tolist()}', residual=dev)
+                    # (oracle audit) bound 1e-5: ten times the flash's K_tol = 1e-6 (was 1e-4; worst observed 1.1e-7)
+                    obs('iso:TP', dev)
+                    isfx = '/unconverged-fixed-point' if dev > ISO_TOL and fixed_point_status(th, cs, x, y, V_tp, T0, P0) == 'unconverged' else ''
+                    rec.check(dev <= ISO_TOL, 'iso-fugacity', 'TP' + isfx, f'liquid and vapour fugacities differ by {dev:.3g} (relative) after vle(T={T0}, P={P0}) on {ids}: f_l={fl.tolist()}, f_g={fg.tolist()}', residual=dev)
             # ---- scaling
             k = case['k']
             s2 = make(case, th, scale=k)
@@ -196,6 +393,8 @@ def run_case(case, rec):
                 a = np.array([r.to_array() for r in s.imol.data.rows]); b = np.array([r.to_array() for r in s2.imol.data.rows])
                 F = a.sum()
                 ssfx = ''
+                rec.hit('scaling-TP:' + cls)      # denominators of the per-class rate bounds of the recorded scaling findings
+                if kind == 'any': rec.hit('scaling-TP:cross-family')
                 if not np.allclose(b, k * a, rtol=0, atol=1e-5 * F * k):
                     # mechanism: is either result an unconverged iterate of the fixed point (liquid and vapour fugacities of the returned split far apart)?
                     def fug_dev(st):
@@ -207,19 +406,15 @@ def run_case(case, rec):
                         m_ = fg > 0
                         return float((np.abs(fl - fg)[m_] / fg[m_]).max()) if m_.any() else 0.0
                     try:
-                        if max(fug_dev(s), fug_dev(s2)) > 1e-2: ssfx = '/unconverged-fixed-point'
+                        if max(fug_dev(s), fug_dev(s2)) > 1e-2: ssfx = f'/{cls}/unconverged-fixed-point'      # (oracle audit) the input class is part of the key: recorded for cross-family mixtures only
                     except Exception: pass
                     if not ssfx:
                         # mechanism: the T-P flash first compares P with the library's own dew pressure (P <= P_dew: all vapour); is that dew pressure an unconverged
                         # iterate of the dew solver for either feed (the recorded C08 dew finding; an unconverged iterate depends on the rounding of z = flows / total)?
-                        try:
-                            from vt.workloads.c08 import dew_status
-                            cs_ = tuple(chems[i] for i in case['ids']); dp_ = eq.DewPoint(cs_, th); bp_ = eq.BubblePoint(cs_, th)
-                            for st in (s, s2):
-                                tot = sum(r.to_array() for r in st.imol.data.rows)[vidx]; z_ = tot / tot.sum()
-                                Pd_, xd_ = dp_.solve_Px(z_.copy(), T0)
-                                if dew_status(dp_, z_, T0, Pd_, xd_, 'solve_Px')[0] == 'unconverged' or Pd_ > bp_.solve_Py(z_.copy(), T0)[0] * (1 + 1e-9): ssfx = '/dew-solver-unconverged'
-                        except Exception: pass
+                        cs_ = tuple(chems[i] for i in case['ids'])
+                        for st in (s, s2):
+                            tot = sum(r.to_array() for r in st.imol.data.rows)[vidx]
+                            if dew_P_mechanism(th, cs_, tot / tot.sum(), T0): ssfx = f'/{cls}/dew-solver-unconverged'
                 rec.check(np.allclose(b, k * a, rtol=0, atol=1e-5 * F * k), 'scaling', 'TP' + ssfx, f'flash of {k}*feed is not {k} times the flash of the feed: max deviation {np.abs(b - k * a).max() / (F * k):.3g} of the feed', residual=float(np.abs(b - k * a).max() / (F * k)))
             # ---- ideal package vs Raoult Rachford-Rice
             if kind == 'ideal' and not case['inert']:
@@ -267,6 +462,9 @@ def run_case(case, rec):
             if flash(s, P=P0, V=V0):
                 Ts = c.Tsat(P0, check_validity=False)
                 rec.check(s.P == P0 and abs(s.T - Ts) <= 1e-9 * Ts, 'single-component', 'PV', f'single component {c.ID}: vle(P={P0}, V={V0}) left T={s.T!r} (Tsat={Ts!r}), P={s.P!r}')
+                # (oracle audit) Tsat is the very call the one-chemical solvers make: judge the returned T through the vapour pressure at it (Tsat resolves T to 1e-6 K / Psat to 1e-2 Pa)
+                Pr = c.Psat(s.T); obs('single:PV/Psat', abs(Pr - P0) / P0)
+                rec.check(abs(Pr - P0) <= SAT_TOL * P0, 'single-component', 'PV/Psat-at-returned-T', f'single component {c.ID}: vle(P={P0}, V={V0}) left T={s.T!r} at which Psat = {Pr!r}, not P', residual=abs(Pr - P0) / P0)
                 rec.check(abs(vfrac(s, vidx) - V0) <= 1e-9, 'single-component', 'PV/V', f'single component: vapour fraction {vfrac(s, vidx)!r} != {V0}')
             rec.mark_nontrivial(case_hash(case))
         # ---- V specifications (families, every x >= 0.02)
@@ -284,42 +482,74 @@ def run_case(case, rec):
                         pa = pr.P
                         if flash(pr, T=T0, V=0.98): vb = max(1e-5, 10 * 0.96 / max(abs(pa - pr.P), 1e-9) * 1.0)
                 rec.check(getattr(s, fixed) == spec[fixed], 'spec-TP', spec_name, f'vle({spec}) left {fixed}={getattr(s, fixed)!r}')
-                rec.check(abs(Vg - V0) <= vb, 'vapour-fraction', spec_name, f'vle({spec}) on {ids}: vapour fraction {Vg!r}', residual=abs(Vg - V0))
+                # (on failure of the P/V form: name the recorded dew-solver mechanism when it is at work - the flash takes the ends of its temperature bracket from the library's bubble / dew solvers)
+                vsfx = dew_T_mechanism(th, tuple(chems[i] for i in case['ids']), np.array(case['x']), P0) if spec_name == 'PV' and not abs(Vg - V0) <= vb else ''
+                rec.check(abs(Vg - V0) <= vb, 'vapour-fraction', spec_name + vsfx, f'vle({spec}) on {ids}: vapour fraction {Vg!r}', residual=abs(Vg - V0))
                 # independent flash of a fresh stream at the returned (T, P)
                 s3 = make(case, th)
                 if flash(s3, T=s.T, P=s.P):
                     V3 = vfrac(s3, vidx)
                     sfx_ = ''
-                    if abs(V3 - V0) > 5e-3 + vb:
+                    obs('reflash:' + spec_name, abs(V3 - V0) - vb)
+                    if abs(V3 - V0) > REFLASH_TOL + vb:
                         # mechanism: do the library's own bubble and dew solvers bracket a two-phase window at the returned state? (a dew temperature below the
                         # bubble temperature at one pressure is the recorded C08 dew-solver finding reaching the flash, which takes its bounds from them)
-                        try:
-                            z_ = np.array(case['x']); cs_ = tuple(chems[i] for i in case['ids'])
-                            dp_ = eq.DewPoint(cs_, th)
-                            Tb_ = eq.BubblePoint(cs_, th).solve_Ty(z_, s.P)[0]; Td_, xd_ = dp_.solve_Tx(z_, s.P)
-                            if Td_ < Tb_ - 1e-6: sfx_ = '/dew-below-bubble'
-                            else:
-                                # the same finding with the iterate on the other side: the dew solver's returned temperature is not a root of the dew equation
-                                from vt.workloads.c08 import dew_status
-                                if dew_status(dp_, z_, Td_, s.P, xd_, 'solve_Tx')[0] == 'unconverged': sfx_ = '/dew-solver-unconverged'
-                        except Exception: pass
-                    rec.check(abs(V3 - V0) <= 5e-3 + vb, 'independent-reflash', spec_name + sfx_, f'vle({spec}) returned T={s.T!r}, P={s.P!r}; an independent TP flash there gives vapour fraction {V3!r}, not {V0} ({ids}, z={case["x"]})', residual=abs(V3 - V0))
+                        sfx_ = dew_T_mechanism(th, tuple(chems[i] for i in case['ids']), np.array(case['x']), float(s.P))
+                    # (oracle audit) bound 1e-4 (was 5e-3): this is the only oracle on the returned T (P/V) or P (T/V) with an activity package - the stream's own vapour fraction is the specification by construction
+                    rec.check(abs(V3 - V0) <= REFLASH_TOL + vb, 'independent-reflash', spec_name + sfx_, f'vle({spec}) returned T={s.T!r}, P={s.P!r}; an independent TP flash there gives vapour fraction {V3!r}, not {V0} ({ids}, z={case["x"]})', residual=abs(V3 - V0))
                 two_phase = True
         # ---- x / y specifications (binary equilibrium sets): the fixed variable is written, the named phase has the specified composition
         if len(case['ids']) == 2 and kind != 'single':
             zA = case['x'][0]
             fv = case['f'] if 0 < case['f'] < 1 else 0.5
             v = min(max(zA * (0.6 + 0.8 * fv), 0.01), 0.99)       # near the overall composition, so that the lever rule is often feasible
+            cs2 = tuple(chems[i] for i in case['ids'])
+            # (oracle audit) in a binary the lever rule makes the named phase's composition equal to the specification whatever the bubble / dew solver returns: the equilibrium
+            # side is judged with the harness-side model, where the property states equilibrium conditions (families with activity coefficients, anything with the ideal package)
+            judged_eq = kind in ('family', 'ideal') and not inerts
             for nm in ('Tx', 'Ty', 'Px', 'Py'):
                 s = make(case, th)
                 fixed = {'T': T0} if nm[0] == 'T' else {'P': P0}
-                if not flash(s, **fixed, **{nm[1]: [v, 1 - v]}): continue
+                if not flash(s, **fixed, **{nm[1]: [v, 1 - v]}):
+                    if type(last.get('e')).__name__ == 'InfeasibleRegion':
+                        # the refusal is warranted when the overall composition does not lie between the two phase compositions (lever rule outside [0, 1])
+                        mdl = xy_model(th, cs2, nm, v, fixed[nm[0]]) if judged_eq and N_eq == 2 else None
+                        if mdl is None: rec.hit('refused-unverified:' + ''.join(sorted(nm)))
+                        else:
+                            x0_, y0_ = float(mdl[2][0]), float(mdl[3][0]); sp_ = (zA - x0_) / (y0_ - x0_) if y0_ != x0_ else float('inf')
+                            rec.hit('spec-xy:refusal-verified')
+                            rec.check(not (1e-3 < sp_ < 1 - 1e-3), 'spec-xy', nm + '/refused-although-feasible', f'vle({fixed}, {nm[1]}=[{v}, {1 - v}]) on {ids} (z={case["x"]}) raised InfeasibleRegion, but with the harness-side model the phases are x={mdl[2].tolist()}, y={mdl[3].tolist()} at T={mdl[0]!r}, P={mdl[1]!r}: a vapour fraction of {sp_:.6g} meets the specification')
+                    continue
                 rec.hit('spec-xy')
                 rec.check(getattr(s, nm[0]) == fixed[nm[0]], 'spec-TP', nm, f'vle({fixed}, {nm[1]}=[{v}, {1 - v}]) on {ids} left {nm[0]}={getattr(s, nm[0])!r} (the stream started at T={case["T"] + case.get("dT0", 0)}, P={case["P"] * case.get("P0f", 1)})')
                 row = s.imol['l' if nm[1] == 'x' else 'g'].to_array()[vidx]
                 if row.sum() > 1e-9 * case['F']:
                     got = row[0] / row.sum()
                     rec.check(abs(got - v) <= 1e-4, 'spec-xy', nm, f'vle({fixed}, {nm[1]}=[{v}, ...]) on {ids}: the {"liquid" if nm[1] == "x" else "vapour"} holds a fraction {got!r} of {case["ids"][0]}', residual=abs(got - v))
+                if judged_eq and N_eq == 2:
+                    w_ = np.array([v, 1. - v]); r_ = (own_bubble if nm[1] == 'x' else own_dew)(th, cs2, w_, float(s.T))
+                    if r_ is None: rec.refuse('x / y specification: harness-side saturation model did not settle at the returned temperature')
+                    else:
+                        rec.hit('spec-xy:equilibrium')
+                        Pm_, o_ = r_; x0_, y0_ = (v, float(o_[0])) if nm[1] == 'x' else (float(o_[0]), v)
+                        # the returned T (P) is where the named phase is saturated: resolution of the bubble / dew solvers P_tol = 1e-3 Pa, T_tol = 1e-9 K, 1e-6 relative in the inner dew iteration
+                        obs('xy:P/' + nm, abs(Pm_ - s.P) / Pm_)
+                        # (on failure of a y specification: name the recorded dew-solver mechanism when the dew point the library computes for that vapour does not satisfy the dew equations)
+                        xsfx = ''
+                        if nm[1] == 'y' and not abs(Pm_ - s.P) <= XY_P_TOL * Pm_ + 1e-2: xsfx = dew_T_mechanism(th, cs2, w_, P0) if nm[0] == 'P' else dew_P_mechanism(th, cs2, w_, T0)
+                        rec.check(abs(Pm_ - s.P) <= XY_P_TOL * Pm_ + 1e-2, 'spec-xy', nm + '/saturation-of-named-phase' + xsfx, f'vle({fixed}, {nm[1]}=[{v}, {1 - v}]) on {ids} returned T={s.T!r}, P={s.P!r}; a {"liquid" if nm[1] == "x" else "vapour"} of that composition is saturated at P={Pm_!r} there (harness-side model)', residual=abs(Pm_ - s.P) / Pm_)
+                        sp_ = (zA - x0_) / (y0_ - x0_) if y0_ != x0_ else float('inf'); sp_ = min(max(sp_, 0.), 1.)
+                        exp_named = case['F'] * ((1 - sp_) if nm[1] == 'x' else sp_)
+                        rec.check(row.sum() > 1e-9 * case['F'] or exp_named <= 1e-4 * case['F'], 'spec-xy', nm + '/named-phase-empty', f'vle({fixed}, {nm[1]}=[{v}, {1 - v}]) on {ids} (z={case["x"]}) left the {"liquid" if nm[1] == "x" else "vapour"} empty, but the lever rule between x0={x0_!r} and y0={y0_!r} puts {exp_named / case["F"]:.6g} of the feed there')
+                        g_ = s.imol['g'].to_array()[vidx]; l_ = s.imol['l'].to_array()[vidx]
+                        if g_.sum() > 1e-9 * case['F'] and l_.sum() > 1e-9 * case['F']:
+                            fl_, fg_ = own_fugacities(th, cs2, l_ / l_.sum(), g_ / g_.sum(), float(s.T), float(s.P))
+                            dev_ = float((np.abs(fl_ - fg_) / fg_).max()); obs('xy:iso/' + nm, dev_)
+                            rec.hit('spec-xy:both-phases')
+                            if nm[1] == 'y' and dev_ > XY_ISO_TOL and not xsfx: xsfx = dew_T_mechanism(th, cs2, w_, P0) if nm[0] == 'P' else dew_P_mechanism(th, cs2, w_, T0)
+                            if kind == 'ideal': rec.check(dev_ <= XY_ISO_TOL, 'raoult-rr', nm + '/raoult-law-between-phases' + xsfx, f'vle({fixed}, {nm[1]}=[{v}, {1 - v}]) on {ids} with the ideal package: x_i Psat_i and y_i P differ by {dev_:.3g} (relative) at the returned T={s.T!r}, P={s.P!r}', residual=dev_)
+                            else: rec.check(dev_ <= XY_ISO_TOL, 'iso-fugacity', 'xy/' + nm + xsfx, f'vle({fixed}, {nm[1]}=[{v}, {1 - v}]) on {ids}: liquid and vapour fugacities differ by {dev_:.3g} (relative) at the returned T={s.T!r}, P={s.P!r}: f_l={fl_.tolist()}, f_g={fg_.tolist()}', residual=dev_)
+                            two_phase = True
         # ---- H and S specifications
         if kind != 'single' or 'N2' in (case['inert'], case.get('inert2')):
             if kind == 'single': rec.hit('single+gas:H/S')      # one volatile chemical diluted by a non-condensable gas: the general solver path (N = 2)
@@ -333,21 +563,89 @@ def run_case(case, rec):
                 # so H (S) is reproduced to |dH/dP| * P_tol; the P-specified searches end with an exact correction of the split
                 slopeH = abs(Hhi - Hlo) / max(abs(Plo - Phi_), 1e-9); slopeS = abs(Shi - Slo) / max(abs(Plo - Phi_), 1e-9)
                 if Hhi == Hlo or Shi == Slo: rec.refuse('degenerate two-phase window (probe flashes returned the same state)'); continue
+                if fixed_name == 'T' and not abs(Plo - Phi_) > 10.0:
+                    # (oracle audit) the T-specified searches resolve the pressure to P_tol = 1 Pa: on a window of less than 10 Pa (near-azeotropic binaries: Toluene/Propanol with the ideal package at
+                    # 322 K boils between 11741.5 and 11742.4 Pa, and the two probe flashes come back at the same pressure) the bound 10 * P_tol * |dH/dP| exceeds the whole window, i.e. nothing can be
+                    # demanded; with the probes collapsed the slope was computed as ~0 and the case was filed under '/unconverged-pressure'
+                    rec.refuse('two-phase window narrower than ten times the pressure resolution of the T-specified searches (P_tol = 1 Pa): H / S reproduction not judged'); continue
                 for q, lo, hi in (('H', Hlo, Hhi), ('S', Slo, Shi)):
                     target = lo + case['f'] * (hi - lo)
                     s = make(case, th)
-                    if not flash(s, **fixed, **{q: target}): continue
+                    allow = ()
+                    if fixed_name == 'P' and q == 'S' and not (0 < case['f'] < 1):
+                        # the one-phase search S(T) = target may fail on entropy functions that are not continuous in T: granted when the target does lie beyond the all-liquid / all-vapour entropy
+                        def beyond(Vb=0.0 if case['f'] < 0 else 1.0, target=target):
+                            sat = make(case, th)
+                            try: sat.vle(P=P0, V=Vb)
+                            except Exception: return False
+                            return bool(target <= sat.S) if Vb == 0.0 else bool(target >= sat.S)
+                        allow = (('RuntimeError', 'root could not be solved', beyond), ('RuntimeError', 'Failed to extrapolate', beyond))
+                    if fixed_name == 'T' and not (0 < case['f'] < 1):
+                        # the T-specified searches refuse a target beyond the all-liquid / all-vapour value ('cannot solve for pressure yet'): targets 0.5 - 1.5 % outside the V = 0.02 .. 0.98
+                        # values can lie there (the first vapour of Hexane/Butanol is mostly hexane, with a small heat of vaporisation); granted when the harness finds it so with T/V flashes
+                        # at V = 0 / 1 (for S: within a jump of the entropy functions)
+                        def beyondT(Vb=0.0 if case['f'] < 0 else 1.0, target=target, q=q, slack=(ENTROPY_JUMP if q == 'S' else 1e-9) * abs(hi - lo)):
+                            sat = make(case, th)
+                            try: sat.vle(T=T0, V=Vb)
+                            except Exception: return False
+                            return bool(target <= getattr(sat, q) + slack) if Vb == 0.0 else bool(target >= getattr(sat, q) - slack)
+                        allow = (('NotImplementedError', 'cannot solve for pressure', beyondT),)
+                    if not flash(s, allow, **fixed, **{q: target}): continue
                     got = getattr(s, q)
                     rec.check(getattr(s, fixed_name) == fixed[fixed_name], 'spec-TP', fixed_name + q, f'vle({fixed}, {q}=...) left {fixed_name}={getattr(s, fixed_name)!r}')
                     sfx = ''
+                    Vs = vfrac(s, vidx)
+                    rec.hit(f'{fixed_name}-spec-HS:{cls}')      # denominators of the per-class rate bounds of the recorded findings of the H / S searches
+                    if inerts: rec.hit(f'{fixed_name}-spec-HS:+inert')
                     if fixed_name == 'T':
                         # is the returned pressure the solution at all?  independent TP flash of a fresh stream at (T, P returned)
+                        # (oracle audit) the input class is part of the key: the two mechanisms are recorded for cross-family mixtures and for inerts only
                         chk = make(case, th)
                         if flash(chk, T=T0, P=s.P):
                             val = getattr(chk, q)
                             ref_b = (10 * slopeH if q == 'H' else 10 * slopeS) + (1e-5 * chk.C if q == 'H' else 5e-3 * abs(Shi - Slo))
-                            if abs(val - target) > ref_b: sfx = '/unconverged-pressure'
-                            else: sfx = '/stream-not-at-returned-pressure'
+                            if abs(val - target) > ref_b: sfx = f'/{cls}/unconverged-pressure'
+                            else: sfx = f'/{cls}/stream-not-at-returned-pressure'
+                    chk = None
+                    if fixed_name == 'P' and q == 'H' and kind in ('family', 'ideal'):
+                        # (oracle audit) set_PH / set_PS end with a correction that moves material between the phases until the stream's H (S) IS the specification, whatever
+                        # temperature the search ended on: the returned T is judged by an independent T-P flash of a fresh stream there
+                        # (P/S: not judged that way - the equilibrium entropy is not a continuous function of T with this package, see ASSUMPTIONS; a coarse window condition instead)
+                        chk = make(case, th)
+                        if not flash(chk, T=float(s.T), P=P0): chk = None
+                    if fixed_name == 'P' and q == 'S' and kind in ('family', 'ideal') and not inerts:
+                        dTw = abs(Thi_ - Tlo_); mT = max(0.1 * dTw, PS_T_MARGIN); Ta, Tb_ = min(Tlo_, Thi_), max(Tlo_, Thi_)
+                        rec.hit('window:PS'); obs(f'PS:{cls}:T-outside', max(Ta - s.T, s.T - Tb_, 0.0))
+                        rec.check(Ta - mT <= s.T <= Tb_ + mT, 'independent-reflash', 'PS/T-inside-window', f'vle({fixed}, S={target!r}) on {ids} (S at {case["f"]} between the values at vapour fractions 0.02 and 0.98) returned T={s.T!r}; '
+                                  f'the P/V flashes at vapour fractions 0.02 and 0.98 are at T={Tlo_!r} and T={Thi_!r}')      # (no residual recorded: kelvins would swamp the vapour-fraction residuals of the clause)
+                    if chk is not None and kind in ('family', 'ideal'):
+                        Vc = vfrac(chk, vidx); valc = getattr(chk, q)
+                        slopeT = abs(hi - lo) / max(abs(Thi_ - Tlo_), 1e-9)      # T_tol = 5e-8 K translated with the slope across the two-phase window
+                        # (+ the resolution of the two fixed points, K_tol = 1e-6: the vapour fractions of the flash inside the search and of the independent one differ by up to 2.5e-7 - observed -, which moves H by that fraction of the window)
+                        base = 1e-5 * chk.C + PH_V_TOL * abs(hi - lo)
+                        # the same resolution in terms of the vapour fraction: T_tol against the width of the window (Acetone/Methanol with the ideal package at 466 kPa boils within 2.3e-6 K)
+                        vT = 10 * 0.96 * T_TOL / max(abs(Thi_ - Tlo_), 1e-12)
+                        rec.hit('reflash:P' + q)
+                        nsfx = '/non-condensable' if inerts else ''      # (ideal package with N2: the window of the search is modified by ad-hoc factors; the class stays in the key)
+                        okH = abs(valc - target) <= 10 * slopeT * T_TOL + base; okV = abs(Vs - Vc) <= PH_V_TOL + vT
+                        if kind == 'family' and not (okH and okV): nsfx = dew_T_mechanism(th, tuple(chems[i] for i in case['ids']), np.array(case['x']), P0)
+                        obs(f'P{q}:{cls}:val', abs(valc - target) / (10 * slopeT * T_TOL + base)); obs(f'P{q}:{cls}:V', abs(Vs - Vc))
+                        rec.check(okH, 'independent-reflash', f'P{q}/{q}-at-returned-T' + nsfx, f'vle({fixed}, {q}={target!r}) on {ids} returned T={s.T!r}; an independent T-P flash there has {q} = {valc!r} '
+                                  f'(off by {abs(valc - target) / chk.C:.3g} K*C): the returned temperature is not where the equilibrium {q} equals the specification', residual=abs(valc - target) / chk.C)
+                        rec.check(okV, 'independent-reflash', f'P{q}/V-at-returned-T' + nsfx, f'vle({fixed}, {q}={target!r}) on {ids} returned T={s.T!r} with vapour fraction {Vs!r}; an independent T-P flash there gives {Vc!r}', residual=abs(Vs - Vc))
+                        g_ = s.imol['g'].to_array()[vidx]; l_ = s.imol['l'].to_array()[vidx]
+                        if kind == 'family' and 0 < Vs < 1:
+                            cs_ = tuple(chems[i] for i in case['ids'])
+                            fl_, fg_ = own_fugacities(th, cs_, l_ / l_.sum(), g_ / g_.sum(), float(s.T), P0)
+                            dev_ = float((np.abs(fl_ - fg_) / fg_).max()); obs(f'P{q}:iso', dev_)
+                            if dev_ > PH_ISO_TOL + vT and not nsfx: nsfx = dew_T_mechanism(th, cs_, np.array(case['x']), P0)
+                            rec.check(dev_ <= PH_ISO_TOL + vT, 'iso-fugacity', f'P{q}/at-returned-T' + nsfx, f'vle({fixed}, {q}={target!r}) on {ids}: liquid and vapour fugacities differ by {dev_:.3g} (relative) at the returned T={s.T!r}: f_l={fl_.tolist()}, f_g={fg_.tolist()}', residual=dev_)
+                        if kind == 'ideal':
+                            cs_ = [chems[i] for i in case['ids']]; F_ = case['F']
+                            nl_ = sum(fr * F_ for i_, fr in ((case['inert'], case['inert_frac']), (case.get('inert2'), case.get('inert2_frac'))) if i_ == 'N2')
+                            eg_, el_, Vm_ = raoult_split(np.array(case['x']) * F_, psats(cs_, float(s.T)) / P0, nl_)
+                            dev_ = float(max(np.abs(g_ - eg_).max(), np.abs(l_ - el_).max()) / F_); obs(f'P{q}:{cls}:rr', dev_)
+                            rec.check(dev_ <= 1e-6 + vT, 'raoult-rr', f'P{q}/at-returned-T' + ('/non-condensable' if nl_ else ''), f'vle({fixed}, {q}={target!r}) on {ids} with the ideal package returned T={s.T!r}: the split differs from the Raoult Rachford-Rice split there by {dev_:.3g} of the feed (V model {Vm_!r}, V stream {Vs!r})', residual=dev_)
                     if q == 'H':
                         C = s.C
                         bound = 1e-5 * C if fixed_name == 'P' else max(1e-5 * C, 10 * slopeH * 1.0)
@@ -355,11 +653,30 @@ def run_case(case, rec):
                     else:
                         rng_ = abs(Shi - Slo)
                         sbound = 5e-3 * rng_ if fixed_name == 'P' else max(5e-3 * rng_, 10 * slopeS * 1.0)
+                        if fixed_name == 'P' and Vs in (0.0, 1.0) and not abs(got - target) <= sbound:
+                            # (oracle audit) a one-phase result that misses the entropy: is the specification inside the box of the property at all ('S between the all-liquid and the
+                            # all-vapour values')?  Targets 0.5 - 1.5 % outside the V = 0.02 .. 0.98 values can lie beyond the saturated value, because the entropy functions of the package
+                            # jump by that much; the one-phase state is then located by solving S(T) = target on a function that is not continuous in T (not the flash's doing, as for
+                            # a single chemical).  Formerly these cases were filed under '/first-order-correction-error' although no material was moved.
+                            sat = make(case, th)
+                            if flash(sat, P=P0, V=Vs) and ((target <= sat.S) if Vs == 0.0 else (target >= sat.S)):
+                                rec.refuse('P/S: specified entropy beyond the all-liquid / all-vapour value (one-phase state on entropy functions that are not continuous in T): entropy reproduction not judged'); continue
+                            # ... or within a jump of those functions of the saturated value (S evaluated at T_bubble twice differs by up to 1e-2 of S_vap - S_liq, so set_PS takes the feed for subcooled):
+                            # the state is one phase, an independent T-P flash at the returned T confirms that phase, and the entropy is missed by no more than such a jump (2e-2 granted)
+                            one = make(case, th)
+                            if abs(got - target) <= ENTROPY_JUMP * rng_ and flash(one, T=float(s.T), P=P0) and vfrac(one, vidx) == Vs:
+                                rec.refuse('P/S: one-phase result confirmed by an independent T-P flash, entropy missed by less than a jump of the entropy functions (not continuous in T): entropy reproduction not judged'); continue
                         # the final step of set_PS moves a fraction of one phase into the other assuming the entropy is linear in that fraction; what it
                         # neglects is the entropy of mixing, bounded by R*F*ln(2) for the material moved (R in kJ/kmol/K, F in kmol/hr)
-                        if fixed_name == 'P' and sbound < abs(got - target) <= 8.314462618 * s.F_mol * math.log(2.): sfx = '/first-order-correction-error'
+                        if fixed_name == 'P' and sbound < abs(got - target) <= 8.314462618 * s.F_mol * math.log(2.):
+                            # (oracle audit) ... for the material MOVED: the difference between the stream's split and the equilibrium split at the returned T (was: the whole stream)
+                            chk = make(case, th)
+                            moved = abs(Vs - vfrac(chk, vidx)) * s.F_mol if flash(chk, T=float(s.T), P=P0) else 0.0
+                            obs(f'PS:{cls}:first-order', abs(got - target) / max(8.314462618 * moved * math.log(2.), 1e-300))
+                            if abs(got - target) <= 8.314462618 * moved * FIRST_ORDER_FACTOR: sfx = f'/{cls}/first-order-correction-error'
+                        obs(f'PS-stream:{cls}' if fixed_name == 'P' else f'TS-stream:{cls}', abs(got - target) / rng_)
                         rec.check(abs(got - target) <= sbound, 'spec-S', fixed_name + 'S' + sfx, f'vle({fixed}, S={target!r}) on {ids}: stream S = {got!r} (residual {abs(got - target) / rng_:.3g} of S_vap - S_liq)', residual=abs(got - target) / rng_)
-                    if 0 < vfrac(s, vidx) < 1: two_phase = True
+                    if 0 < Vs < 1: two_phase = True
         try:
             if extra_clauses(case, rec, th, ids, vidx, flash): two_phase = True
         except Exception as e:
@@ -375,6 +692,18 @@ def run_case(case, rec):
 
 def rows_of(s):
     return np.array([r.to_array() for r in s.imol.data.rows])
+
+
+def raoult_split(zv, K, nl=0.0):
+    """(vapour flows, liquid flows, V) of the volatile chemicals with flows zv and Raoult K values, with nl kmol/hr of a non-partitioning gas (V is then the vapour fraction of volatile + gas)"""
+    Fv = float(zv.sum())
+    if nl > 0:
+        Ft = Fv + nl; z = zv / Ft; V = raoult_rr_light(z, K, nl / Ft)
+        if V >= 1.0: return zv.copy(), np.zeros_like(zv), V
+        l = (1 - V) * Ft * z / (1 + V * (K - 1)); return zv - l, l, V
+    z = zv / Fv; V = raoult_rr(z, K)
+    if V in (0.0, 1.0): return zv * V, zv * (1 - V), V
+    xl = z / (1 + V * (K - 1)); return V * Fv * K * xl, (1 - V) * Fv * xl, V
 
 
 def raoult_rr_light(z, K, zl):
@@ -410,7 +739,13 @@ def extra_clauses(case, rec, th, ids, vidx, flash):
                 if not (hi > lo): rec.refuse('single component: saturated vapour value not above the saturated liquid value'); continue
                 target = lo + case['f'] * (hi - lo)
                 s = make(case, th)
-                if not flash(s, **fixed, **{q: target}): continue
+                # (oracle audit) the documented refusals are granted only where the harness sees their reason: the target lies outside the saturated values, so a one-phase state is
+                # searched - the T-specified searches cannot do that ('cannot solve for pressure yet'), the P-specified ones may leave the range of a heat-capacity model
+                outside = not (0 < case['f'] < 1)
+                allow = ()
+                if outside and fixed_name == 'T': allow = (('NotImplementedError', 'cannot solve for pressure'),)
+                elif outside: allow = (('RuntimeError', 'Failed to extrapolate'),) + ((('RuntimeError', 'root could not be solved'),) if q == 'S' else ())      # (S(T) = target on entropy functions that are not continuous in T)
+                if not flash(s, allow, **fixed, **{q: target}): continue
                 nm = fixed_name + q
                 rec.hit('single:' + nm)
                 rec.check(getattr(s, fixed_name) == fixed[fixed_name], 'spec-TP', 'single/' + nm, f'single component {c.ID}: vle({fixed}, {q}=...) left {fixed_name}={getattr(s, fixed_name)!r} (the stream started at T={Tstart}, P={Pstart})')
@@ -430,6 +765,8 @@ def extra_clauses(case, rec, th, ids, vidx, flash):
                     if fixed_name == 'P':
                         Ts = c.Tsat(P0, check_validity=False)
                         rec.check(abs(s.T - Ts) <= 1e-9 * Ts, 'single-component', nm + '/T', f'single component {c.ID}: vle(P={P0}, {q} between the saturated values) left T={s.T!r} but Tsat(P)={Ts!r}')
+                        Pr = c.Psat(s.T); obs('single:' + nm + '/Psat', abs(Pr - P0) / P0)      # (oracle audit) not through Tsat, which the solver itself calls
+                        rec.check(abs(Pr - P0) <= SAT_TOL * P0, 'single-component', nm + '/Psat-at-returned-T', f'single component {c.ID}: vle(P={P0}, {q} between the saturated values) left T={s.T!r} at which Psat = {Pr!r}, not P', residual=abs(Pr - P0) / P0)
                     else:
                         Ps = c.Psat(T0)
                         rec.check(abs(s.P - Ps) <= 1e-9 * Ps, 'single-component', nm + '/P', f'single component {c.ID}: vle(T={T0}, {q} between the saturated values) left P={s.P!r} but Psat(T)={Ps!r}')
@@ -490,7 +827,19 @@ def extra_clauses(case, rec, th, ids, vidx, flash):
             pr = make(case, th); v = pr.vle; v._setup()
             Pb = float(v._bubble_point.solve_Py(v._z, T0)[0]); Pd = float(v._dew_point.solve_Px(v._z, T0)[0])
         except Exception as e:
-            rec.refuse(f'bubble/dew point unavailable: {type(e).__name__}'); Pb = Pd = None
+            # (oracle audit) only a documented refusal of the solvers makes the clause disappear; anything else is reported
+            if type(e).__name__ == 'InfeasibleRegion': rec.refuse(f'bubble/dew point unavailable: {type(e).__name__}')
+            else: rec.exception('phase-boundary', e, what=f'the bubble / dew pressure the flash computes for {ids} (z={case["x"]}, T={T0}) raised {type(e).__name__}: {str(e)[:140]}')
+            Pb = Pd = None
+        z_ = np.array(case['x']); cs_ = tuple(chems[i] for i in case['ids'])
+        wo = own_window(rec, th, cs_, z_, T0) if Pb is not None else None
+        if wo is not None:
+            # (oracle audit) 'all liquid AT the bubble pressure' is judged at the pressure the flash itself computes; that this pressure IS the bubble pressure of the mixture is judged
+            # against the harness-side model (resolution of the solvers: P_tol = 1e-3 Pa, 1e-9 relative in the residual; 1e-6 relative for the inner dew iteration)
+            obs('boundary:Pb', abs(Pb - wo[0]) / wo[0]); obs('boundary:Pd', abs(Pd - wo[1]) / wo[1])
+            rec.hit('boundary:solver-vs-model')
+            rec.check(abs(Pb - wo[0]) <= BOUNDARY_TOL * wo[0] + 1e-2, 'phase-boundary', 'at-bubble/pressure-vs-model', f'the bubble pressure the flash computes for {ids} (z={case["x"]}) at T={T0} is {Pb!r}; the harness-side model sum_i z_i gamma_i Psat_i gives {wo[0]!r}', residual=abs(Pb - wo[0]) / wo[0])
+            rec.check(abs(Pd - wo[1]) <= BOUNDARY_TOL * wo[1] + 1e-2, 'phase-boundary', 'at-dew/pressure-vs-model', f'the dew pressure the flash computes for {ids} (z={case["x"]}) at T={T0} is {Pd!r}; the harness-side fixed point gives {wo[1]!r}', residual=abs(Pd - wo[1]) / wo[1])
         if Pb is not None and Pd < Pb:
             s = make(case, th)
             if flash(s, T=T0, P=Pb):
@@ -523,10 +872,8 @@ def extra_clauses(case, rec, th, ids, vidx, flash):
     # ---- the Gibbs-minimising solver method offered by VLE (vle.method = 'shgo'): same phase-boundary and iso-fugacity conditions at specified T and P
     if kind == 'family' and not inert and case.get('shgo'):
         z = np.array(case['x']); cs = tuple(chems[i] for i in case['ids'])
-        try:
-            Pb = eq.BubblePoint(cs, th).solve_Py(z.copy(), T0)[0]; Pd = eq.DewPoint(cs, th).solve_Px(z.copy(), T0)[0]
-        except Exception as e:
-            rec.refuse(f'bubble/dew point unavailable: {type(e).__name__}'); Pb = Pd = None
+        wl = lib_window(rec, th, cs, z, T0); wo = own_window(rec, th, cs, z, T0)
+        Pb, Pd = wl if wl is not None else (wo if wo is not None else (None, None))
         if Pb is not None:
             P0_case = P0
             if not (Pd * (1 + 1e-4) < P0 < Pb * (1 - 1e-4)) and Pd < Pb and case.get('shgo_inside'):
@@ -542,6 +889,9 @@ def extra_clauses(case, rec, th, ids, vidx, flash):
                 elif Pd * (1 + 1e-4) < P0 < Pb * (1 - 1e-4):
                     rec.hit('method:shgo/inside')
                     rec.check(0.0 < Vs < 1.0, 'phase-boundary', 'inside/method=shgo', f'P_dew={Pd!r} < P={P0} < P_bubble={Pb!r} at T={T0} but method shgo returns vapour fraction {Vs!r} ({ids}, z={z.tolist()})')
+                # (oracle audit) the same three conditions against the harness-side model (same keys: the mechanism is the solver method, not the reference)
+                if wo is not None and wl is not None:
+                    if judge_window(rec, Vs, P0, wo[0], wo[1], '/method=shgo', 'harness-side model', f'vle(T={T0}, P={P0}) with method shgo on {ids}, z={z.tolist()}'): rec.hit('method:shgo/inside')
                 if 0.0 < Vs < 1.0:
                     g = s.imol['g'].to_array()[vidx]; l = s.imol['l'].to_array()[vidx]
                     y = g / g.sum(); x = l / l.sum()
@@ -549,7 +899,7 @@ def extra_clauses(case, rec, th, ids, vidx, flash):
                     gam = th.Gamma(cs)(x.copy(), T0); phi = th.Phi(cs)(y.copy(), T0, P0); pcf = th.PCF(cs)(T0, P0, Psat)
                     fl = x * gam * Psat * pcf; fg = y * phi * P0
                     dev = float((np.abs(fl - fg) / fg).max())
-                    rec.check(dev <= 1e-4, 'iso-fugacity', 'TP/method=shgo', f'liquid and vapour fugacities differ by {dev:.3g} (relative) after vle(T={T0}, P={P0}) with method shgo on {ids}: f_l={fl.tolist()}, f_g={fg.tolist()}', residual=dev)
+                    rec.check(dev <= ISO_TOL, 'iso-fugacity', 'TP/method=shgo', f'liquid and vapour fugacities differ by {dev:.3g} (relative) after vle(T={T0}, P={P0}) with method shgo on {ids}: f_l={fl.tolist()}, f_g={fg.tolist()}', residual=dev)
                     two = True
             P0 = P0_case
 
@@ -560,13 +910,15 @@ def extra_clauses(case, rec, th, ids, vidx, flash):
             rec.hit('initial-distribution')
             rec.check(s.T == T0 and s.P == P0, 'spec-TP', 'TP/initial-distribution', f'vle(T={T0}, P={P0}) on a feed that starts split over g / l left T={s.T!r}, P={s.P!r}')
             Va, Vb = vfrac(ref, vidx), vfrac(s, vidx)
-            rec.check(abs(Va - Vb) <= 5e-3, 'independent-reflash', 'initial-distribution', f'vle(T={T0}, P={P0}) on {ids}: vapour fraction {Va!r} from an all-liquid feed but {Vb!r} from the same feed split {case.get("dist0")} over g / l', residual=abs(Va - Vb))
+            obs('reflash:initial-distribution', abs(Va - Vb))
+            rec.check(abs(Va - Vb) <= REFLASH_TOL, 'independent-reflash', 'initial-distribution', f'vle(T={T0}, P={P0}) on {ids}: vapour fraction {Va!r} from an all-liquid feed but {Vb!r} from the same feed split {case.get("dist0")} over g / l', residual=abs(Va - Vb))
             # chain: P,V then P,H on the same stream
             if flash(s, P=P0, V=V0):
                 Vg = vfrac(s, vidx)
                 rec.hit('chained')
                 rec.check(s.P == P0, 'spec-TP', 'PV/chained', f'vle(P={P0}, V={V0}) after a T/P flash on the same stream left P={s.P!r}')
-                rec.check(abs(Vg - V0) <= 1e-5, 'vapour-fraction', 'PV/chained', f'vle(P={P0}, V={V0}) after a T/P flash on the same stream: vapour fraction {Vg!r}', residual=abs(Vg - V0))
+                vsfx = dew_T_mechanism(th, tuple(chems[i] for i in case['ids']), np.array(case['x']), P0) if not abs(Vg - V0) <= 1e-5 else ''
+                rec.check(abs(Vg - V0) <= 1e-5, 'vapour-fraction', 'PV/chained' + vsfx, f'vle(P={P0}, V={V0}) after a T/P flash on the same stream: vapour fraction {Vg!r}', residual=abs(Vg - V0))
                 fr = make(case, th)
                 if flash(fr, P=P0, V=V0):
                     rec.check(abs(fr.T - s.T) <= 1e-6, 'independent-reflash', 'PV/chained', f'vle(P={P0}, V={V0}): T={s.T!r} after a T/P flash on the same stream but {fr.T!r} on a fresh stream', residual=abs(fr.T - s.T))
@@ -578,6 +930,21 @@ def extra_clauses(case, rec, th, ids, vidx, flash):
                             C = s.C
                             rec.check(s.P == P0, 'spec-TP', 'PH/chained', f'vle(P={P0}, H=...) after T/P and P/V flashes on the same stream left P={s.P!r}')
                             rec.check(abs(s.H - target) <= 1e-5 * C, 'spec-H', 'PH/chained', f'vle(P={P0}, H={target!r}) after T/P and P/V flashes on the same stream: stream H = {s.H!r} (residual {abs(s.H - target) / C:.3g} K*C)', residual=abs(s.H - target) / C)
+                            # (oracle audit) the enthalpy holds by the final correction of set_PH whatever T the search ended on: the returned state is judged against the fresh P/V flash whose
+                            # enthalpy was specified (same T, same vapour fraction) and by the fugacities of the two phases
+                            Vt = min(0.98, max(0.02, 1 - V0)); Vh = vfrac(s, vidx)
+                            obs('PH/chained:T', abs(s.T - pr.T)); obs('PH/chained:V', abs(Vh - Vt))
+                            rec.hit('reflash:PH/chained')
+                            g_ = s.imol['g'].to_array()[vidx]; l_ = s.imol['l'].to_array()[vidx]; dev_ = 0.0
+                            if 0 < Vh < 1:
+                                fl_, fg_ = own_fugacities(th, tuple(chems[i] for i in case['ids']), l_ / l_.sum(), g_ / g_.sum(), float(s.T), P0)
+                                dev_ = float((np.abs(fl_ - fg_) / fg_).max()); obs('PH/chained:iso', dev_)
+                            vT = 10 * T_TOL * abs(Vt - V0) / max(abs(pr.T - fr.T), 1e-12)      # T_tol in terms of the vapour fraction, from the two fresh P/V flashes (at V0 and at 1 - V0)
+                            msfx = '' if (abs(s.T - pr.T) <= PH_T_TOL and abs(Vh - Vt) <= REFLASH_TOL + vT and dev_ <= PH_ISO_TOL + vT) else dew_T_mechanism(th, tuple(chems[i] for i in case['ids']), np.array(case['x']), P0)
+                            rec.check(abs(s.T - pr.T) <= PH_T_TOL, 'independent-reflash', 'PH/chained/T' + msfx, f'vle(P={P0}, H = the enthalpy of a fresh stream at vapour fraction {Vt}) after T/P and P/V flashes on the same stream returned T={s.T!r}; the fresh stream is at T={pr.T!r}', residual=abs(s.T - pr.T))
+                            rec.check(abs(Vh - Vt) <= REFLASH_TOL + vT, 'independent-reflash', 'PH/chained/V' + msfx, f'vle(P={P0}, H = the enthalpy of a fresh stream at vapour fraction {Vt}) after T/P and P/V flashes on the same stream: vapour fraction {Vh!r}', residual=abs(Vh - Vt))
+                            if 0 < Vh < 1:
+                                rec.check(dev_ <= PH_ISO_TOL + vT, 'iso-fugacity', 'PH/chained' + msfx, f'vle(P={P0}, H=...) after T/P and P/V flashes on {ids}: liquid and vapour fugacities differ by {dev_:.3g} (relative) at the returned T={s.T!r}', residual=dev_)
                 two = True
     return two
 
@@ -727,6 +1094,7 @@ def history_clauses(h, rec):
     if n2A: amtA['N2'] = h['n2_frac'] * FA
     if n2B: amtB['N2'] = h['n2_frac'] * FB
     V1, V2 = h['V1'], h['V2']
+    hcls = klass(h['kind'], n2B)      # input class of the second flash, as in the keys of run_case
     hist = f"{h['obj']} holding {idsA} flashed with {h['spec1']}, contents changed ({mode}, through {method}) to {idsB}"
     if mode == 'other-stream': hist = f"{h['obj']} holding {idsA} flashed with {h['spec1']}, then another {h['obj']} of the same package holding {idsB}"
     two = False
@@ -734,13 +1102,15 @@ def history_clauses(h, rec):
     def flash(s, step, **spec):
         nm = ''.join(sorted(spec))
         try:
-            s.vle(**spec); return True
+            s.vle(**spec); rec.hit('returned:' + nm); return True
         except Exception as e:
-            if type(e).__name__ in REFUSE: rec.refuse(f'history/{step}/{nm}: {type(e).__name__}'); return False
-            # as everywhere in C04: the property speaks about calculations that return; programming errors in the call path are still reported
-            if not isinstance(e, (TypeError, AttributeError, KeyError, IndexError, NameError, UnboundLocalError)):
-                rec.refuse(f'history/{step}/{nm}: raised {type(e).__name__}'); return False
-            rec.exception('flash', e, what=f'{step} flash of a history ({hist}): vle({spec}) raised {type(e).__name__}: {str(e)[:140]}'); return False
+            # as everywhere in C04: the property speaks about calculations that return, so a documented refusal is counted, not judged - (oracle audit) but only the documented
+            # exception type of that specification (see flash() in run_case); every other raise is reported
+            tn = type(e).__name__; msg = str(e)
+            if ((tn == 'InfeasibleRegion' and ('x' in spec or 'y' in spec) and 'phase composition' in msg)
+                    or (tn == 'NotImplementedError' and nm in ('HT', 'ST') and (n2A or n2B) and 'cannot solve for pressure' in msg)):
+                rec.refuse(f'history/{step}/{nm}: {tn}'); rec.hit('refused-unverified:' + nm); return False
+            rec.exception('flash/' + klass(h['kind'], n2A or n2B), e, what=f'{step} flash of a history ({hist}): vle({spec}) raised {tn}: {msg[:140]} - not a documented refusal for this specification and these inputs'); return False
 
     def Psats(ids_, T): return np.array([chems[i].Psat(T) for i in ids_])
 
@@ -750,9 +1120,7 @@ def history_clauses(h, rec):
         if ideal:
             Ps = Psats(ids_, T); return float((z * Ps).sum()), float(1. / (z / Ps).sum())
         cs = tuple(chems[i] for i in ids_)
-        try: return float(eq.BubblePoint(cs, th).solve_Py(z.copy(), T)[0]), float(eq.DewPoint(cs, th).solve_Px(z.copy(), T)[0])
-        except Exception as e:
-            rec.refuse(f'history: bubble/dew point unavailable: {type(e).__name__}'); return None
+        return lib_window(rec, th, cs, z, T, 'history: ')
 
     def window_T(ids_, x_, P):
         z = np.array(x_)
@@ -762,7 +1130,9 @@ def history_clauses(h, rec):
         cs = tuple(chems[i] for i in ids_)
         try: return float(eq.BubblePoint(cs, th).solve_Ty(z.copy(), P)[0]), float(eq.DewPoint(cs, th).solve_Tx(z.copy(), P)[0])
         except Exception as e:
-            rec.refuse(f'history: bubble/dew point unavailable: {type(e).__name__}'); return None
+            if type(e).__name__ == 'InfeasibleRegion': rec.refuse(f'history: bubble/dew point unavailable: {type(e).__name__}')
+            else: rec.exception('phase-boundary', e, what=f'history: BubblePoint.solve_Ty / DewPoint.solve_Tx on {ids_} (z={z.tolist()}, P={P}) raised {type(e).__name__}: {str(e)[:140]}')
+            return None
 
     def P_inside(ids_, x_, T, V):
         w = window_P(ids_, x_, T)
@@ -803,6 +1173,9 @@ def history_clauses(h, rec):
             dev = float(max(np.abs(g - exp_g).max(), np.abs(l - exp_l).max()) / F)
             rec.check(dev <= 1e-6, 'raoult-rr', 'TP/history/' + sfx, f'{what}: the ideal-package flash at T={T}, P={P} differs from the Raoult Rachford-Rice split of the present contents by {dev:.3g} of the feed (V model {Vm!r}, V flash {V!r}; z={z.tolist()})', residual=dev)
             return 0 < Vm < 1
+        # (oracle audit) the reference is the harness-side model; the library's solvers (which the flash itself consults) stay as a second reference
+        wo = own_window(rec, th, tuple(chems[i] for i in ids_), z, T)
+        if wo is not None: judge_window(rec, V, P, wo[0], wo[1], '/history/' + sfx, 'harness-side model', f'{what}: vle(T={T}, P={P}), z={z.tolist()}')
         w = window_P(ids_, x_, T)
         if w is not None:
             Pb, Pd = w
@@ -817,12 +1190,14 @@ def history_clauses(h, rec):
             fl = x * th.Gamma(cs)(x.copy(), T) * Psat * th.PCF(cs)(T, P, Psat); fg = y * th.Phi(cs)(y.copy(), T, P) * P
             dev = float((np.abs(fl - fg) / fg).max())
             # (the suffix is the recorded fixed-point mechanism, independent of the history: a fresh stream gives the same iterate)
-            ksfx = 'TP/unconverged-fixed-point' if dev > 1e-4 and fixed_point_status(th, cs, x, y, V, T, P) == 'unconverged' else 'TP/history/' + sfx
-            rec.check(dev <= 1e-4, 'iso-fugacity', ksfx, f'{what}: liquid and vapour fugacities differ by {dev:.3g} (relative) after vle(T={T}, P={P}): f_l={fl.tolist()}, f_g={fg.tolist()}', residual=dev)
+            obs('iso:TP/history', dev)
+            ksfx = 'TP/unconverged-fixed-point' if dev > ISO_TOL and fixed_point_status(th, cs, x, y, V, T, P) == 'unconverged' else 'TP/history/' + sfx
+            rec.check(dev <= ISO_TOL, 'iso-fugacity', ksfx, f'{what}: liquid and vapour fugacities differ by {dev:.3g} (relative) after vle(T={T}, P={P}): f_l={fl.tolist()}, f_g={fg.tolist()}', residual=dev)
         fr = hist_stream(th, amt, h['Ts'], P * h['Psf'])
         if flash(fr, 'fresh', T=T, P=P):
             Vf = vfrac(fr, vidx)
-            rec.check(abs(Vf - V) <= 5e-3, 'independent-reflash', 'TP/history/' + sfx, f'{what}: vle(T={T}, P={P}) gives vapour fraction {V!r} but {Vf!r} on a fresh stream with the same contents', residual=abs(Vf - V))
+            obs('reflash:TP/history', abs(Vf - V))
+            rec.check(abs(Vf - V) <= REFLASH_TOL, 'independent-reflash', 'TP/history/' + sfx, f'{what}: vle(T={T}, P={P}) gives vapour fraction {V!r} but {Vf!r} on a fresh stream with the same contents', residual=abs(Vf - V))
         return 0.0 < V < 1.0
 
     # ---- where the second flash takes place: a point of the T/P box at which the SECOND mixture is two-phase (85 %), else the drawn (T, P)
@@ -879,7 +1254,7 @@ def history_clauses(h, rec):
                 try:
                     g = rows2[0][vidx]; l = rows2[1][vidx]; y = g / g.sum(); x = l / l.sum(); cs = tuple(chems[i] for i in idsB); Psat = Psats(idsB, T2)
                     fl = x * th.Gamma(cs)(x.copy(), T2) * Psat * th.PCF(cs)(T2, P2, Psat); fg = y * th.Phi(cs)(y.copy(), T2, P2) * P2
-                    if float((np.abs(fl - fg) / fg).max()) > 1e-2: key = 'TP/unconverged-fixed-point'      # the recorded mechanism (an unconverged iterate depends on rounding)
+                    if float((np.abs(fl - fg) / fg).max()) > 1e-2: key = f'TP/{hcls}/unconverged-fixed-point'      # the mechanism recorded for cross-family mixtures (an unconverged iterate depends on rounding); (oracle audit) the class is part of the key
                 except Exception: pass
             rec.hit('history:rescaled')
             rec.check(okk, 'scaling', key, f'{what}: the contents were multiplied by {k} and flashed again at T={T2}, P={P2}: the flows are not {k} times those of the first flash (max deviation {np.abs(rows2 - k * rows1).max() / (F * k):.3g} of the feed)', residual=float(np.abs(rows2 - k * rows1).max() / (F * k)))
@@ -911,16 +1286,11 @@ def history_clauses(h, rec):
             fr = hist_stream(th, amtB, h['Ts'], P2 * h['Psf'])
             if 280. <= s.T <= 450. and 2e4 <= s.P <= 1e6 and flash(fr, 'fresh', T=s.T, P=s.P):
                 V3 = vfrac(fr, vidx); key = spec2 + '/history/' + mode
-                if abs(V3 - V2) > 5e-3 + vb:
-                    try:
-                        z_ = np.array(xB); cs_ = tuple(chems[i] for i in idsB)
-                        dp_ = eq.DewPoint(cs_, th); Td_, xd_ = dp_.solve_Tx(z_, s.P)
-                        if Td_ < eq.BubblePoint(cs_, th).solve_Ty(z_, s.P)[0] - 1e-6: key = spec2 + '/dew-below-bubble'      # the recorded dew-solver finding reaching the flash
-                        else:
-                            from vt.workloads.c08 import dew_status
-                            if dew_status(dp_, z_, Td_, s.P, xd_, 'solve_Tx')[0] == 'unconverged': key = spec2 + '/dew-solver-unconverged'
-                    except Exception: pass
-                rec.check(abs(V3 - V2) <= 5e-3 + vb, 'independent-reflash', key, f'{what}: vle({spec}) returned T={s.T!r}, P={s.P!r}; a T-P flash of a fresh stream with the same contents there gives vapour fraction {V3!r}, not {V2} (z={xB})', residual=abs(V3 - V2))
+                obs('reflash:' + spec2 + '/history', abs(V3 - V2) - vb)
+                if abs(V3 - V2) > REFLASH_TOL + vb:
+                    m_ = dew_T_mechanism(th, tuple(chems[i] for i in idsB), np.array(xB), float(s.P))      # the recorded dew-solver finding reaching the flash
+                    if m_: key = spec2 + m_
+                rec.check(abs(V3 - V2) <= REFLASH_TOL + vb, 'independent-reflash', key, f'{what}: vle({spec}) returned T={s.T!r}, P={s.P!r}; a T-P flash of a fresh stream with the same contents there gives vapour fraction {V3!r}, not {V2} (z={xB})', residual=abs(V3 - V2))
             two = True
         if two and fixed == 'T' and h['sameT'] and not same_set: rec.hit('history:same-T/changed-set/two-phase')
     elif spec2 == 'xy':
@@ -939,6 +1309,22 @@ def history_clauses(h, rec):
         if row.sum() > 1e-9 * FB:
             got = row[0] / row.sum()
             rec.check(abs(got - v) <= 1e-4, 'spec-xy', nm + '/history/' + mode, f'{what}: vle({fixed}, {nm[1]}=[{v}, ...]): the {"liquid" if nm[1] == "x" else "vapour"} holds a fraction {got!r} of {chems.IDs[vo[0]]}', residual=abs(got - v))
+        # (oracle audit) in a binary the lever rule makes the named phase's composition the specification whatever the bubble / dew solver returned: the returned T (P) must be
+        # where a phase of that composition is saturated (harness-side model) and the two phases must be in equilibrium (histories with x / y are family mixtures)
+        cs2 = tuple(chems[i] for i in (chems.IDs[j] for j in vo)); w_ = np.array([v, 1. - v])
+        r_ = (own_bubble if nm[1] == 'x' else own_dew)(th, cs2, w_, float(s.T))
+        if r_ is None: rec.refuse('x / y specification: harness-side saturation model did not settle at the returned temperature')
+        else:
+            rec.hit('spec-xy:equilibrium'); obs('xy:P/history', abs(r_[0] - s.P) / r_[0])
+            xsfx = ''
+            if nm[1] == 'y' and not abs(r_[0] - s.P) <= XY_P_TOL * r_[0] + 1e-2: xsfx = dew_T_mechanism(th, cs2, w_, P2) if nm[0] == 'P' else dew_P_mechanism(th, cs2, w_, T2)      # the recorded dew-solver finding reaching vle(P, y) / vle(T, y)
+            rec.check(abs(r_[0] - s.P) <= XY_P_TOL * r_[0] + 1e-2, 'spec-xy', nm + '/saturation-of-named-phase/history' + xsfx, f'{what}: vle({fixed}, {nm[1]}=[{v}, {1 - v}]) returned T={s.T!r}, P={s.P!r}; a {"liquid" if nm[1] == "x" else "vapour"} of that composition is saturated at P={r_[0]!r} there (harness-side model)', residual=abs(r_[0] - s.P) / r_[0])
+            g_ = s.imol['g'].to_array()[vo]; l_ = s.imol['l'].to_array()[vo]
+            if g_.sum() > 1e-9 * FB and l_.sum() > 1e-9 * FB:
+                fl_, fg_ = own_fugacities(th, cs2, l_ / l_.sum(), g_ / g_.sum(), float(s.T), float(s.P))
+                dev_ = float((np.abs(fl_ - fg_) / fg_).max()); obs('xy:iso/history', dev_); rec.hit('spec-xy:both-phases')
+                if nm[1] == 'y' and dev_ > XY_ISO_TOL and not xsfx: xsfx = dew_T_mechanism(th, cs2, w_, P2) if nm[0] == 'P' else dew_P_mechanism(th, cs2, w_, T2)
+                rec.check(dev_ <= XY_ISO_TOL, 'iso-fugacity', 'xy/' + nm + '/history' + xsfx, f'{what}: vle({fixed}, {nm[1]}=[{v}, {1 - v}]): liquid and vapour fugacities differ by {dev_:.3g} (relative) at the returned T={s.T!r}, P={s.P!r}', residual=dev_)
         two = 0 < vfrac(s, vidx) < 1
     elif spec2 == 'TH':
         # the enthalpy of the two-phase state of the new contents at (T2, V2); reproduced to |dH/dP| * P_tol (the T-specified search solves for the pressure to P_tol = 1 Pa)
@@ -950,15 +1336,17 @@ def history_clauses(h, rec):
         if not flash(pr, 'probe', T=T2, V=V2): return False
         target = pr.H
         if Hhi == Hlo: rec.refuse('history: degenerate two-phase window (probe flashes returned the same state)'); return False
+        if not abs(Plo - Phi_) > 10.0: rec.refuse('history: two-phase window narrower than ten times the pressure resolution of the T-specified searches (P_tol = 1 Pa): H reproduction not judged'); return False
         slopeH = abs(Hhi - Hlo) / max(abs(Plo - Phi_), 1e-9)
         if not flash(s, 'second', T=T2, H=target): return False
-        rec.hit('history:second=TH')
+        rec.hit('history:second=TH'); rec.hit('T-spec-HS:' + hcls)
+        if n2B: rec.hit('T-spec-HS:+inert')
         rec.check(s.T == T2, 'spec-TP', 'TH/history', f'{what}: vle(T={T2}, H=...) left T={s.T!r}')
         C = s.C; got = s.H; key = 'TH/history/' + mode
         if abs(got - target) > max(1e-5 * C, 10 * slopeH):
             # the recorded mechanisms of the T-specified searches (same classification as for streams without a history)
             chk = hist_stream(th, amtB, h['Ts'], P2)
-            if flash(chk, 'fresh', T=T2, P=s.P): key = 'TH/unconverged-pressure' if abs(chk.H - target) > 10 * slopeH + 1e-5 * chk.C else 'TH/stream-not-at-returned-pressure'
+            if flash(chk, 'fresh', T=T2, P=s.P): key = f'TH/{hcls}/unconverged-pressure' if abs(chk.H - target) > 10 * slopeH + 1e-5 * chk.C else f'TH/{hcls}/stream-not-at-returned-pressure'      # (oracle audit) class in the key
         rec.check(abs(got - target) <= max(1e-5 * C, 10 * slopeH), 'spec-H', key, f'{what}: vle(T={T2}, H={target!r}): stream H = {got!r} (residual {abs(got - target) / C:.3g} K*C)', residual=abs(got - target) / C)
         two = 0 < vfrac(s, vidx) < 1
     else:      # PH: the enthalpy of the two-phase state of the new contents at (P2, V2)
@@ -970,7 +1358,20 @@ def history_clauses(h, rec):
         C = s.C
         rec.check(s.P == P2, 'spec-TP', 'PH/history', f'{what}: vle(P={P2}, H=...) left P={s.P!r}')
         rec.check(abs(s.H - target) <= 1e-5 * C, 'spec-H', 'PH/history/' + mode, f'{what}: vle(P={P2}, H={target!r}): stream H = {s.H!r} (residual {abs(s.H - target) / C:.3g} K*C)', residual=abs(s.H - target) / C)
-        rec.check(abs(s.T - pr.T) <= 1e-3, 'independent-reflash', 'PH/history/' + mode, f'{what}: vle(P={P2}, H = the enthalpy of a fresh stream with the same contents at vapour fraction {V2}) returned T={s.T!r}; the fresh stream is at T={pr.T!r}', residual=abs(s.T - pr.T))
+        obs('PH/history:T', abs(s.T - pr.T))
+        Vh = vfrac(s, vidx); dev_ = 0.0
+        if 0 < Vh < 1:
+            g_ = s.imol['g'].to_array()[vidx]; l_ = s.imol['l'].to_array()[vidx]
+            fl_, fg_ = own_fugacities(th, tuple(chems[i] for i in idsB), l_ / l_.sum(), g_ / g_.sum(), float(s.T), P2)
+            dev_ = float((np.abs(fl_ - fg_) / fg_).max()); obs('PH/history:iso', dev_)
+        # (when an oracle of the returned state fails: is it the recorded dew-solver finding reaching the flash through its temperature bracket?)
+        msfx = '' if (abs(s.T - pr.T) <= PH_T_TOL and abs(Vh - V2) <= REFLASH_TOL and dev_ <= PH_ISO_TOL) else dew_T_mechanism(th, tuple(chems[i] for i in idsB), np.array(xB), P2)
+        rec.check(abs(s.T - pr.T) <= PH_T_TOL, 'independent-reflash', 'PH/history/' + mode + msfx, f'{what}: vle(P={P2}, H = the enthalpy of a fresh stream with the same contents at vapour fraction {V2}) returned T={s.T!r}; the fresh stream is at T={pr.T!r}', residual=abs(s.T - pr.T))
+        # (oracle audit) the enthalpy holds by the final correction of set_PH whatever T the search ended on: the split must be that of the fresh stream, the phases in equilibrium
+        obs('PH/history:V', abs(Vh - V2))
+        rec.check(abs(Vh - V2) <= REFLASH_TOL, 'independent-reflash', 'PH/history/V/' + mode + msfx, f'{what}: vle(P={P2}, H = the enthalpy of a fresh stream with the same contents at vapour fraction {V2}): vapour fraction {Vh!r}', residual=abs(Vh - V2))
+        if 0 < Vh < 1:
+            rec.check(dev_ <= PH_ISO_TOL, 'iso-fugacity', 'PH/history/' + mode + msfx, f'{what}: vle(P={P2}, H=...): liquid and vapour fugacities differ by {dev_:.3g} (relative) at the returned T={s.T!r}', residual=dev_)
         two = 0 < vfrac(s, vidx) < 1
     # ---- third flash: back to the first set of chemicals (new proportions), at the temperature of the second flash
     if h['third'] and spec2 in ('TP', 'TV'):
@@ -990,6 +1391,24 @@ def replay(case, rec):
     run_case(case, rec)
 
 
+REFUSAL_CEILING = 0.4      # (per shard; unverifiable x / y refusals on cross-family mixtures run at 13 % of the x / y calls: 1-2 per quick shard)
+
+
+def refusal_ceilings(rec):
+    """(oracle audit) refusals whose warrant the harness could not verify from the inputs are counted under 'refused-unverified:<specification>'.  When they are more than
+    REFUSAL_CEILING of the calls with that specification (and at least 8) the clauses of that specification were judged on a selected part of the inputs only: the run
+    is inconclusive.  (Recorder has no call for that yet; the list it turns into 'inconclusive' is used)"""
+    for k, n in sorted(rec.reach.items()):
+        if not k.startswith('refused-unverified:'): continue
+        nm = k.split(':', 1)[1]; ok = rec.reach.get('returned:' + nm, 0)
+        if n >= 8 and n > REFUSAL_CEILING * (n + ok):
+            msg = (f'refusal ceiling: {n} of {n + ok} vle calls with specification {nm} ended in a refusal whose warrant the harness cannot see from the inputs '
+                   f'(ceiling {REFUSAL_CEILING}): the clauses for this specification were judged on a selected part of the inputs')
+            fn = getattr(rec, 'inconclusive', None)
+            if callable(fn): fn(msg)
+            else: rec.harness_errors.append({'clause': 'refusal-ceiling', 'error': msg, 'traceback': '(not an exception: a refusal-rate ceiling of the C04 workload)', 'case': None})
+
+
 def run(rec, rng, tier, shard, nshards):
     n = 100 if tier == 'quick' else 1650
     for i in range(n):
@@ -999,3 +1418,4 @@ def run(rec, rng, tier, shard, nshards):
         except Exception as e:
             rec.exception('harness', e, what=f'harness error: {type(e).__name__}: {e}')
         if i % 23 == 0: rec.sample(case)
+    refusal_ceilings(rec)
